@@ -31,6 +31,13 @@ fn first_runs(u: &Universe, arch: &Arch, n: usize) -> Vec<Scenario> {
         v.push(Scenario { prior: None, seed_output: false, seeds: vec![u.concat(&letters, &s)], fault: Fault::None, verify_output: false });
     }
     v.push(Scenario { prior: Some(arch.source.clone()), seed_output: true, seeds: vec![], fault: Fault::None, verify_output: false });
+    // the source shifted by every letter (whatever the depth n): every chunk must move by less than its own
+    // size or into the place of a bigger neighbour - the overlap cases of the re-order planner
+    for j in 0..letters.len() {
+        let mut p = u.concat(&letters, &[j]);
+        p.extend_from_slice(&arch.source);
+        v.push(Scenario { prior: Some(p), seed_output: true, seeds: vec![], fault: Fault::None, verify_output: false });
+    }
     v
 }
 
@@ -134,12 +141,12 @@ pub fn run(rep: &mut Report) {
             let nreads = clean.log.iter().filter(|o| matches!(o, Op::Read { .. })).count();
             let nseeks = clean.log.iter().filter(|o| matches!(o, Op::Seek { .. })).count();
             let mut faults = vec![];
-            for r in 0..nreads.min(6) {
+            for r in 0..nreads.min(40) {
                 faults.push(Fault::ErrAtRead { n: r });
                 faults.push(Fault::ShortRead { n: r, t: 1 });
                 faults.push(Fault::PendingRead { n: r });
             }
-            for sidx in 0..nseeks.min(6) {
+            for sidx in 0..nseeks.min(40) {
                 faults.push(Fault::ErrAtSeek { n: sidx });
             }
             for fault in faults {
